@@ -246,20 +246,40 @@ def _worker_init():
     logging.disable(logging.CRITICAL)
 
 
+class CaseTimeout(BaseException):
+    """the implementation did not come back from one case within the per-case limit (a hang is an observation)"""
+
+
+def _alarm(_sig, _frm):
+    raise CaseTimeout()
+
+
 def _worker_run(args):
     modname, case = args
     import importlib
+    import signal
 
     mod = importlib.import_module(modname)
+    limit = int(getattr(mod, "CASE_TIMEOUT", 0) or os.environ.get("PWH_CASE_TIMEOUT", 60))
+    try:
+        signal.signal(signal.SIGALRM, _alarm)
+        signal.alarm(limit)
+    except (ValueError, AttributeError):  # not in the main thread of the worker
+        limit = 0
     # every case in a fresh sub directory (autoload / recovery files)
     d = tempfile.mkdtemp(dir=os.environ.get("PWVERIF_TMP", None))
     old = os.getcwd()
     os.chdir(d)
     try:
         return mod.run_impl(case)
+    except CaseTimeout:
+        return {"obs": [f"HARNESS-ERROR CaseTimeout: the implementation did not return within {limit} s"],
+                "tb": traceback.format_exc()[-3000:]}
     except BaseException as e:  # noqa: BLE001
         return {"obs": [f"HARNESS-ERROR {type(e).__name__}: {e}"], "tb": traceback.format_exc()}
     finally:
+        if limit:
+            signal.alarm(0)
         os.chdir(old)
         shutil.rmtree(d, ignore_errors=True)
 
